@@ -52,8 +52,8 @@ class Dm14Query:
         """
         assert self.state is QueryState.WAIT_FOR_SEED
         if self.command is Command.WRITE:
-            self._send_dm16()
             self.state = QueryState.WAIT_FOR_OPER_COMPLETE
+            self._send_dm16()
         else:
             self.state = QueryState.WAIT_FOR_DM16
             self._ca.unsubscribe(self._parse_dm15)
@@ -266,8 +266,9 @@ class Dm14Query:
         self.return_raw_bytes = return_raw_bytes
         self.command = Command.READ
         self._ca.subscribe(self._parse_dm15)
-        self._send_dm14(self.user_level)
+        # the answer may be processed before the sending call has returned
         self.state = QueryState.WAIT_FOR_SEED
+        self._send_dm14(self.user_level)
         # wait for operation completed DM15 message
         raw_bytes = None
         try:
@@ -312,8 +313,9 @@ class Dm14Query:
         self.bytes = self._values_to_bytes(values)
         self.object_count = len(values)
         self._ca.subscribe(self._parse_dm15)
-        self._send_dm14(self.user_level)
+        # the answer may be processed before the sending call has returned
         self.state = QueryState.WAIT_FOR_SEED
+        self._send_dm14(self.user_level)
         # wait for operation completed DM15 message
         try:
             self.data_queue.get(block=True, timeout=max_timeout)
